@@ -8,12 +8,13 @@
    are compared with the real generators' output on every run) looks at its input only through
    norm_bmodel (normalised type names, the padding that takes effect), for EVERY model; hence two
    visitor results with same_meaning = true yield identical code for every target.  PROVED
-   (Proofs/SpellingProofs.v): ten of the thirteen rewrites preserve `visit` up to same_meaning for ALL
+   (Proofs/SpellingProofs.v): twelve of the thirteen rewrites preserve `visit` up to same_meaning for ALL
    parse trees (drop_docs, seps_all, seps_none unguarded; alias_long, alias_long_opts, alias_short,
-   zchar, expand_keys, default_options, prefix_attr under the guard stated in each theorem - the
-   guards exclude trees the lexer cannot produce and the recorded findings), hence identical code
-   for every target (C08_rw_*_same_code, end of this file).  PARTIAL: drop_default_pad,
-   add_default_pad and inline_meta are evaluated on every run, not proved.
+   zchar, expand_keys, default_options, prefix_attr, drop_default_pad, add_default_pad under the guard
+   stated in each theorem - the guards exclude trees the lexer cannot produce, the recorded findings
+   and, for drop_default_pad, a char[n] field that carries @lengthOf/@calculatedFrom besides its
+   padding), hence identical code for every target (C08_rw_*_same_code, end of this file).
+   PARTIAL: inline_meta is evaluated on every run, not proved (false as stated: recorded finding).
    The full statement is FALSE of the faithful model on the witnesses below (recorded findings
    visitor-C08): shared MetaData attribute objects, the bare default pad character, mixed key lists. *)
 From FP Require Import PT Flatten Visitor VisitorShow Faults NoPanic Spelling VisitorWitnesses VisitorProofs Go Py Cpp Rust Java Lua Frag NormGen.
@@ -95,11 +96,18 @@ Print Assumptions C08_mixed_key_list_refuted.
      alias_opts_guard              no option value is the dynamic-string keyword (refuted below without it);
      no_mixed_key_list             every key list has its numbers before its strings (a list of one kind has);
      default_options_guard         not: FixedStringPadFromLeft declared and FixedStringPadChar not declared;
-     prefix_attr_guard             every inline @lengthOf/@calculatedFrom declaration with a written type has a basic or dynamic
-                                   type that agrees with the type the inline form takes (which is that of the MetaData entry of
-                                   the field's NAME when there is one); refuted below without it.
-   NOT proved: rw_drop_default_pad, rw_add_default_pad (the results differ in the string objects' padding, equal only after the
-   configured default is filled in: needs the erasure extended to the store), rw_inline_meta (refuted above as stated).
+     prefix_attr_guard             every inline @lengthOf/@calculatedFrom declaration with a written type has a basic type, or
+                                   a dynamic one whose text normalises like "string" (not char[n], which makes a string object
+                                   in the prefixed form: refuted below); it no longer looks at the MetaData table.
+     drop_default_pad_guard        a padding option is declared (the rewrite does nothing), or every char[n] field whose last
+                                   padding is the default one has a text without "zchar" and only padding and tag attributes
+                                   (a padding written after @lengthOf/@calculatedFrom is refused with a diagnostic);
+     add_default_pad_guard         a padding option is declared, or every char[n] field without padding has a text without "zchar".
+   The two padding rewrites change the string objects of the result (padding None / the default): proved through a second
+   erasure of the store (the default filled in), which the visitor respects and which preserves the normalised model when
+   no padding option is declared (then the configured padding is the default).
+   NOT proved: rw_inline_meta (refuted above as stated; the inlined char[n] makes a new string object where the MetaData-typed
+   field shares the entry's: needs a renaming of the string objects).
    Each Example shows the statement is not vacuous: a tree from the real parser that satisfies the hypotheses and is changed
    by the rewrite. *)
 From FP Require Import SpellingProofs.
@@ -304,6 +312,46 @@ Theorem C08_rw_prefix_attr_example :
 Proof. exact rw_prefix_attr_example. Qed.
 Print Assumptions C08_rw_prefix_attr_example.
 
+Theorem C08_rw_drop_default_pad_preserves : forall t r, visit t = VOk r -> r_diags r = [] -> drop_default_pad_guard t = true ->
+  exists r', visit (rw_drop_default_pad t) = VOk r' /\ same_meaning r r' = true.
+Proof. exact rw_drop_default_pad_preserves. Qed.
+Print Assumptions C08_rw_drop_default_pad_preserves.
+
+Theorem C08_rw_drop_default_pad_same_code : forall l names t r, visit t = VOk r -> r_diags r = [] -> drop_default_pad_guard t = true ->
+  exists r', visit (rw_drop_default_pad t) = VOk r' /\ gen_of l (to_bmodel_names names r) = gen_of l (to_bmodel_names names r').
+Proof. exact rw_drop_default_pad_same_code. Qed.
+Print Assumptions C08_rw_drop_default_pad_same_code.
+
+Theorem C08_rw_drop_default_pad_same_lua : forall names t r, visit t = VOk r -> r_diags r = [] -> drop_default_pad_guard t = true ->
+  exists r', visit (rw_drop_default_pad t) = VOk r' /\ gen_lua (to_bmodel_names names r) = gen_lua (to_bmodel_names names r').
+Proof. exact (same_lua_of_preserves _ _ preserves_drop_default_pad). Qed.
+Print Assumptions C08_rw_drop_default_pad_same_lua.
+
+Theorem C08_rw_drop_default_pad_example :
+  (exists r, visit w_spelling = VOk r /\ r_diags r = []) /\ drop_default_pad_guard w_spelling = true /\ same_tokens (rw_drop_default_pad w_spelling) w_spelling = false.
+Proof. exact rw_drop_default_pad_example. Qed.
+Print Assumptions C08_rw_drop_default_pad_example.
+
+Theorem C08_rw_add_default_pad_preserves : forall t r, visit t = VOk r -> r_diags r = [] -> add_default_pad_guard t = true ->
+  exists r', visit (rw_add_default_pad t) = VOk r' /\ same_meaning r r' = true.
+Proof. exact rw_add_default_pad_preserves. Qed.
+Print Assumptions C08_rw_add_default_pad_preserves.
+
+Theorem C08_rw_add_default_pad_same_code : forall l names t r, visit t = VOk r -> r_diags r = [] -> add_default_pad_guard t = true ->
+  exists r', visit (rw_add_default_pad t) = VOk r' /\ gen_of l (to_bmodel_names names r) = gen_of l (to_bmodel_names names r').
+Proof. exact rw_add_default_pad_same_code. Qed.
+Print Assumptions C08_rw_add_default_pad_same_code.
+
+Theorem C08_rw_add_default_pad_same_lua : forall names t r, visit t = VOk r -> r_diags r = [] -> add_default_pad_guard t = true ->
+  exists r', visit (rw_add_default_pad t) = VOk r' /\ gen_lua (to_bmodel_names names r) = gen_lua (to_bmodel_names names r').
+Proof. exact (same_lua_of_preserves _ _ preserves_add_default_pad). Qed.
+Print Assumptions C08_rw_add_default_pad_same_lua.
+
+Theorem C08_rw_add_default_pad_example :
+  (exists r, visit w_spelling_unpadded = VOk r /\ r_diags r = []) /\ add_default_pad_guard w_spelling_unpadded = true /\ same_tokens (rw_add_default_pad w_spelling_unpadded) w_spelling_unpadded = false.
+Proof. exact rw_add_default_pad_example. Qed.
+Print Assumptions C08_rw_add_default_pad_example.
+
 (* the guard of the option-value alias rewrites is needed: `options { GoPackage = string; }` *)
 Theorem C08_alias_long_opts_unguarded_refuted :
   (exists r, visit w_dyn_option = VOk r /\ r_diags r = []) /\ alias_opts_guard w_dyn_option = false /\
@@ -311,17 +359,17 @@ Theorem C08_alias_long_opts_unguarded_refuted :
 Proof. exact alias_long_opts_unguarded_refuted. Qed.
 Print Assumptions C08_alias_long_opts_unguarded_refuted.
 
-Theorem C08_prefix_attr_guard_excludes_refuted :
-  prefix_attr_guard w_len_named_like_meta = false /\ prefix_attr_guard w_fixed_checksum = false.
+Theorem C08_prefix_attr_guard_excludes_refuted : prefix_attr_guard w_fixed_checksum = false.
 Proof. exact prefix_attr_guard_excludes_refuted. Qed.
 Print Assumptions C08_prefix_attr_guard_excludes_refuted.
 
-(* rw_prefix_attr is FALSE without its guard: `MetaData M { u32 len, } root packet A { u16 len @lengthOf(x), u8 x, }` *)
-Theorem C08_prefix_attr_refuted_name_like_meta :
-  (exists r, visit w_len_named_like_meta = VOk r /\ r_diags r = []) /\
-  same_meaning_o (visit w_len_named_like_meta) (visit (rw_prefix_attr w_len_named_like_meta)) = false.
-Proof. exact prefix_attr_refuted_name_like_meta. Qed.
-Print Assumptions C08_prefix_attr_refuted_name_like_meta.
+(* fixed (was a recorded finding): `MetaData M { u32 len, } root packet A { u16 len @lengthOf(x), u8 x, }` - the written type of
+   the inline declaration is kept although a MetaData entry has the name of the field; both spellings mean the same *)
+Theorem C08_prefix_attr_name_like_meta :
+  (exists r, visit w_len_named_like_meta = VOk r /\ r_diags r = []) /\ prefix_attr_guard w_len_named_like_meta = true /\
+  same_meaning_o (visit w_len_named_like_meta) (visit (rw_prefix_attr w_len_named_like_meta)) = true.
+Proof. exact prefix_attr_name_like_meta. Qed.
+Print Assumptions C08_prefix_attr_name_like_meta.
 
 (* rw_prefix_attr is FALSE without its guard: `packet A { char[4] c @calculatedFrom("X"), }` *)
 Theorem C08_prefix_attr_refuted_fixed_string :
